@@ -25,7 +25,7 @@ from vlib.shim import MUTATING_KINDS
 
 PRE_WEIGHTS = {'add': 8, 'addpack': 6, 'pack': 3, 'clean': 1, 'delete': 1, 'aux_add': 3, 'loosen': 1}
 OP_KINDS = gen.weighted(
-    {'add': 4, 'addpack': 6, 'pack': 8, 'clean': 4, 'delete': 4, 'repack': 5, 'repack_pack': 2, 'import': 4, 'loosen': 1,
+    {'add': 3, 'addpack': 10, 'pack': 8, 'clean': 3, 'delete': 3, 'repack': 5, 'repack_pack': 2, 'import': 6, 'loosen': 1,
      'seekread': 2, 'add_over_damaged': 2}
 )
 
@@ -38,9 +38,9 @@ def strategy(max_pre=10, force_fsync=False):
         op = op.map(lambda o: dict(o, f=o['f'] & ~masks.get(o['k'], 0)))
     return st.fixed_dictionaries(
         {
-            'cfg': gen.config(targets=(1, 64, 1000, 4 * 1024**3)),
+            'cfg': gen.config(targets=(1, 64, 1000, 4 * 1024**3, 4 * 1024**3, 100000)),
             'aux_cfg': gen.config(targets=(64, 4 * 1024**3)),
-            'pool': st.lists(gen.content_desc(20000, 1), min_size=2, max_size=7),
+            'pool': st.lists(gen.content_desc(6000, 1), min_size=2, max_size=6),
             'ops': st.integers(2, max_pre).flatmap(lambda n: st.lists(gen.op(gen.weighted(PRE_WEIGHTS)), min_size=n, max_size=n)),
             'op': op,
         }
